@@ -338,6 +338,28 @@ fn parse(format: Format, text: &str, rounded: bool) -> Result<Result<Problem, St
     })
 }
 
+/// Reads the instance through the command line's format table (vrp-cli `get_formats`), i.e. from a file.
+fn parse_via_cli(format: Format, text: &str, rounded: bool) -> Result<Result<Problem, String>, String> {
+    let dir = std::path::PathBuf::from(VERIF_ROOT).join("target").join("tmp");
+    let _ = std::fs::create_dir_all(&dir);
+    let path = dir.join(format!("c13-{}-{:?}.txt", std::process::id(), std::thread::current().id()));
+    std::fs::write(&path, text).map_err(|e| e.to_string())?;
+    let name = match format {
+        Format::Solomon => "solomon",
+        Format::Lilim => "lilim",
+        Format::Tsplib => "tsplib",
+    };
+    let result = catch(|| {
+        let random: Arc<dyn Random> = Arc::new(DefaultRandom::new_repeatable());
+        let formats = vrp_cli::extensions::solve::formats::get_formats(rounded, random);
+        let (reader, _, _, _) = formats.get(name).ok_or_else(|| format!("no format {name}"))?;
+        let file = std::fs::File::open(&path).map_err(|e| e.to_string())?;
+        (reader.0)(file, None).map_err(|e| e.to_string())
+    });
+    let _ = std::fs::remove_file(&path);
+    result
+}
+
 fn check_instance(inst: &Instance, format: Format, variant: usize, report: &mut Report) {
     let text = match format {
         Format::Solomon => print_solomon(inst),
@@ -357,8 +379,20 @@ fn check_instance(inst: &Instance, format: Format, variant: usize, report: &mut 
                     check_solutions(&Arc::new(problem), inst, format, report, &scen);
                 }
             }
-            Ok(Err(e)) => report.violation(Violation::new(format!("{}:rejected", format!("{format:?}").to_lowercase()), e, scen)),
-            Err(p) => report.violation(Violation::new(format!("{}:panic@{}", format!("{format:?}").to_lowercase(), panic_site(&p)), p, scen)),
+            Ok(Err(e)) => report.violation(Violation::new(format!("{}:rejected", format!("{format:?}").to_lowercase()), e, scen.clone())),
+            Err(p) => report.violation(Violation::new(format!("{}:panic@{}", format!("{format:?}").to_lowercase(), panic_site(&p)), p, scen.clone())),
+        }
+        // the same instance through the command line's format table
+        report.add_count("evaluations", 1);
+        report.add_count("cli_parses", 1);
+        match parse_via_cli(format, &text, rounded) {
+            Ok(Ok(problem)) => {
+                for (key, what) in compare(&problem, inst, format, rounded) {
+                    report.violation(Violation::new(format!("cli:{key}"), what, scen.clone()));
+                }
+            }
+            Ok(Err(e)) => report.violation(Violation::new(format!("cli:{}:rejected", format!("{format:?}").to_lowercase()), e, scen)),
+            Err(p) => report.violation(Violation::new(format!("cli:{}:panic@{}", format!("{format:?}").to_lowercase(), panic_site(&p)), p, scen)),
         }
     }
 }
@@ -489,6 +523,9 @@ fn instances(ctx: &RunCtx, format: Format) -> Vec<Instance> {
                 for (ci, cap) in caps.iter().enumerate() {
                     for (fi, fleet) in fleets.iter().enumerate() {
                         let dxy = depot_xy[(base + ci + fi) % 2];
+                        // every 4th instance uses real-world sized coordinates (tens of thousands)
+                        let scale = if (base + stride) % 4 == 0 { 10_000 } else { 1 };
+                        let dxy = (dxy.0 * scale, dxy.1 * scale);
                         let depot_id = match format {
                             Format::Tsplib => 1 + (base % (n + 1)), // depot id is not always 1
                             _ => 0,
@@ -502,7 +539,7 @@ fn instances(ctx: &RunCtx, format: Format) -> Vec<Instance> {
                             }
                             customers.push(Customer {
                                 id: next_id,
-                                xy: coords[t.0],
+                                xy: (coords[t.0].0 * scale, coords[t.0].1 * scale),
                                 demand: demands[t.1],
                                 tw: windows[t.2],
                                 service: services[t.3],
@@ -522,7 +559,7 @@ fn instances(ctx: &RunCtx, format: Format) -> Vec<Instance> {
                                 let t = templates[(base + k * stride + 3) % templates.len()];
                                 paired.push(Customer {
                                     id: did,
-                                    xy: coords[(t.0 + 1) % coords.len()],
+                                    xy: (coords[(t.0 + 1) % coords.len()].0 * scale, coords[(t.0 + 1) % coords.len()].1 * scale),
                                     demand: -c.demand,
                                     tw: (c.tw.0 + 5, c.tw.1 + 50),
                                     service: services[t.3],
